@@ -45,3 +45,81 @@ Proof.
   { destruct (memn k sw) eqn:E'; [|reflexivity]. apply memn_In in E'. contradiction. }
   rewrite (memn_perm_false k _ _ (sort_nat_perm sw) Hsw). reflexivity.
 Qed.
+
+(* ---------- block swap in closed form ---------- *)
+Section Runs.
+  Variables A B : list nat.
+  Lemma fill2_neither_run ps1 : forall ps2 sa sb, (forall p, In p ps1 -> memn p A = false /\ memn p B = false) ->
+    fill2 (ps1 ++ ps2) A B sa sb = ps1 ++ fill2 ps2 A B sa sb.
+  Proof.
+    induction ps1 as [|p ps IH]; intros ps2 sa sb H; [reflexivity|]. cbn [app fill2].
+    destruct (H p (or_introl eq_refl)) as [-> ->]. f_equal. apply IH. intros q Hq. apply H. now right.
+  Qed.
+  Lemma fill2_A_run ps1 : forall sa1 ps2 sa2 sb, (forall p, In p ps1 -> memn p A = true) -> List.length sa1 = List.length ps1 ->
+    fill2 (ps1 ++ ps2) A B (sa1 ++ sa2) sb = sa1 ++ fill2 ps2 A B sa2 sb.
+  Proof.
+    induction ps1 as [|p ps IH]; intros sa1 ps2 sa2 sb H Hl.
+    - destruct sa1; [reflexivity | discriminate].
+    - destruct sa1 as [|x sa1]; [discriminate|]. cbn [app fill2]. rewrite (H p (or_introl eq_refl)). f_equal.
+      apply IH; [intros q Hq; apply H; now right | cbn in Hl; lia].
+  Qed.
+  Lemma fill2_B_run ps1 : forall sb1 ps2 sa sb2, (forall p, In p ps1 -> memn p A = false /\ memn p B = true) ->
+    List.length sb1 = List.length ps1 ->
+    fill2 (ps1 ++ ps2) A B sa (sb1 ++ sb2) = sb1 ++ fill2 ps2 A B sa sb2.
+  Proof.
+    induction ps1 as [|p ps IH]; intros sb1 ps2 sa sb2 H Hl.
+    - destruct sb1; [reflexivity | discriminate].
+    - destruct sb1 as [|x sb1]; [discriminate|]. cbn [app fill2]. destruct (H p (or_introl eq_refl)) as [-> ->]. f_equal.
+      apply IH; [intros q Hq; apply H; now right | cbn in Hl; lia].
+  Qed.
+End Runs.
+
+Lemma memn_seq_true k a L : (a <= k < a + L)%nat -> memn k (seq a L) = true.
+Proof. intros H. apply memn_In. apply in_seq. lia. Qed.
+
+(* closed form of the index list of two exchanged disjoint runs a..a+L-1 and b..b+L-1 (a+L <= b, b+L <= n) *)
+Lemma fill2_two_runs a L g r :
+  let b := (a + L + g)%nat in
+  fill2 (seq 0 (a + L + g + L + r)) (seq a L) (seq b L) (seq b L) (seq a L)
+  = seq 0 a ++ seq b L ++ seq (a + L) g ++ seq a L ++ seq (b + L) r.
+Proof.
+  intros b.
+  replace (a + L + g + L + r)%nat with (a + (L + (g + (L + r))))%nat by lia.
+  rewrite (seq_app a), (seq_app L), (seq_app g), (seq_app L). cbn [plus].
+  change (a + L + g)%nat with b.
+  rewrite fill2_neither_run by (intros p Hp; apply in_seq in Hp; split; apply memn_seq_false; unfold b; lia).
+  f_equal.
+  match goal with |- fill2 (_ ++ ?ps2) _ _ _ _ = _ =>
+    pose proof (fill2_A_run (seq a L) (seq b L) (seq a L) (seq b L) ps2 [] (seq a L)) as HA end.
+  rewrite app_nil_r in HA. rewrite HA
+    by (try (intros p Hp; apply in_seq in Hp; apply memn_seq_true; lia); now rewrite !seq_length). clear HA.
+  f_equal.
+  rewrite fill2_neither_run by (intros p Hp; apply in_seq in Hp; split; apply memn_seq_false; unfold b; lia).
+  f_equal.
+  match goal with |- fill2 (_ ++ ?ps2) _ _ _ _ = _ =>
+    pose proof (fill2_B_run (seq a L) (seq b L) (seq b L) (seq a L) ps2 [] []) as HB end.
+  rewrite app_nil_r in HB. rewrite HB
+    by (try (intros p Hp; apply in_seq in Hp; split; [apply memn_seq_false | apply memn_seq_true]; unfold b in *; lia); now rewrite !seq_length). clear HB.
+  f_equal.
+  rewrite <- (app_nil_r (seq (b + L) r)) at 1.
+  rewrite fill2_neither_run by (intros p Hp; apply in_seq in Hp; split; apply memn_seq_false; unfold b; lia).
+  cbn [fill2]. now rewrite app_nil_r.
+Qed.
+
+(* block swap in closed form: the child's residues are the parent's read in the order
+   [0,i1) ++ [j,j+L) ++ [i1+L,j) ++ [i1,i1+L) ++ [j+L,n), with L = bs-1 and j = i2+bs-1 *)
+Theorem blockSwap_closed_form o bs i1 i2 c : blockSwap o bs i1 i2 = Some c ->
+  let n := List.length (mseq o) in let L := (bs - 1)%nat in let j := (i2 + bs - 1)%nat in
+  mseq c = rearrange Ala (mseq o)
+             (seq 0 i1 ++ seq j L ++ seq (i1 + L) (j - (i1 + L)) ++ seq i1 L ++ seq (j + L) (n - (j + L))).
+Proof.
+  intros H n L j. unfold blockSwap in H. fold n in H.
+  destruct (_ && _) eqn:E; [|discriminate]. injection H as <-. cbn [rebuilt mseq].
+  apply andb_prop in E. destruct E as [E E4]. apply andb_prop in E. destruct E as [E E3]. apply andb_prop in E. destruct E as [E1 E2].
+  apply Nat.leb_le in E1. apply Nat.leb_le in E2. apply Nat.ltb_lt in E3. apply Nat.ltb_lt in E4.
+  f_equal.
+  pose proof (fill2_two_runs i1 L (j - (i1 + L)) (n - (j + L))) as HF. cbn zeta in HF.
+  replace (i1 + L + (j - (i1 + L)))%nat with j in HF by (unfold j, L; lia).
+  replace (j + L + (n - (j + L)))%nat with n in HF by (unfold j, L; lia).
+  exact HF.
+Qed.
